@@ -229,6 +229,15 @@ func (e *Engine) registerFSIntrinsics() {
 		}
 		return Tuple{Iface{T: r.eng.prog.ImportedPackage("io/fs").Type("FileInfo").Type(), V: &fileInfoObj{dir: k == 1}}, Iface{}}
 	}
+	// Lstat: as Stat, except that a symbolic link is reported as itself (not a directory)
+	in["os.Lstat"] = func(r *Run, fr *frame, a []Value) Value {
+		if f := r.eng.prog.ImportedPackage("github.com/ddddddO/gtree").Func("vfsIsLink"); f != nil {
+			if r.callFunc(fr, f, []Value{a[0]}, nil).(BoolV).C {
+				return Tuple{Iface{T: r.eng.prog.ImportedPackage("io/fs").Type("FileInfo").Type(), V: &fileInfoObj{dir: false}}, Iface{}}
+			}
+		}
+		return in["os.Stat"](r, fr, a)
+	}
 	in["os.IsNotExist"] = func(r *Run, fr *frame, a []Value) Value {
 		return r.equal(nil, a[0], notExist(r))
 	}
